@@ -686,6 +686,13 @@ impl CoreRuntime {
             if !self.timer.key_irq_latched {
                 return;
             }
+            // The latch stands for "key events are still queued".  Once the queue has been
+            // drained (a KIL read consumes it) there is nothing left to announce: drop the
+            // latch instead of raising KEYI for ever with no event pending.
+            if self.keyboard.as_ref().is_some_and(|kb| kb.fifo_len() == 0) {
+                self.timer.key_irq_latched = false;
+                return;
+            }
             self.timer.key_irq_latched = true;
             let isr = self.memory.read_internal_byte(IMEM_ISR_OFFSET).unwrap_or(0);
             if (isr & ISR_KEYI) == 0 {
